@@ -103,6 +103,9 @@ def space(tier, seed):
                     for k in ((None, 1, 2, 3) if thorough else (None, 1, 3)):
                         for rc in (([], [1], [0, 6]) if thorough else ([], [0, 6])):
                             items.append({"net": netname, "sessions": ss, "sched": SCHEDS[sk], "sk": sk, "k": k, "period": period, "recompute": rc})
+                            if rc and k != 3 and any(s["a"] in rc for s in ss):
+                                # the same history with the recompute requests LISTED before the plug-ins
+                                items.append({"net": netname, "sessions": ss, "sched": SCHEDS[sk], "sk": sk, "k": k, "period": period, "recompute": rc, "rc_first": True})
     # ---- block D: plug-in events whose timestamp differs from the EV's nominal arrival (early / late drivers):
     # the session is plugged in in the period of its plug-in EVENT and leaves in its departure period
     for netname, stations in (("N1", ["PS-A", "PS-B"]),):
